@@ -8,6 +8,12 @@ import ast
 from .common import parse_file, find_func, need, emit, TranslateError
 
 
+# names that only serve the clean-up after a failure (no phase work)
+BOOKKEEPING = ("parsers",)
+# calls allowed in the handler of the main-model block (besides the final bare raise)
+CLEANUP = ("remove_models_from_repositories", "_abort_user_class_construction")
+
+
 def _is_models_loop(n):
     return isinstance(n, ast.For) and ast.unparse(n.target) == "m" and ast.unparse(n.iter) == "models" and not n.orelse
 
@@ -41,12 +47,28 @@ def translate():
     mains = [n for n in ast.walk(fn) if isinstance(n, ast.If) and ast.unparse(n.test) == "is_main_model"]
     need(len(mains) == 1 and not mains[0].orelse, "expected exactly one `if is_main_model:` block")
     body = mains[0].body
-    need(len(body) == 2 and ast.unparse(body[0]) == "models = get_included_models(model)" and isinstance(body[1], ast.Try),
-         "main-model block is not `models = ...; try: ...`")
-    tr = body[1]
+    # `models = get_included_models(model)`, optional plain initialisations of clean-up
+    # bookkeeping (`parsers = []`), then the try block
+    need(len(body) >= 2 and ast.unparse(body[0]) == "models = get_included_models(model)" and isinstance(body[-1], ast.Try),
+         "main-model block is not `models = ...; [bookkeeping = literal;] try: ...`")
+    for st in body[1:-1]:
+        need(isinstance(st, ast.Assign) and len(st.targets) == 1 and ast.unparse(st.targets[0]) in BOOKKEEPING
+             and not any(isinstance(x, ast.Call) for x in ast.walk(st.value)),
+             "unexpected statement before the try block: " + ast.unparse(st)[:80])
+    tr = body[-1]
     need(not tr.orelse and not tr.finalbody and len(tr.handlers) == 1, "try shape changed")
     h = tr.handlers[0]
     need(h.type is None and isinstance(h.body[-1], ast.Raise) and h.body[-1].exc is None, "handler must re-raise")
+    # the handler only cleans up (no processor, no end of construction) and re-raises
+    for st in h.body[:-1]:
+        need(isinstance(st, ast.Expr) and isinstance(st.value, ast.Call) and ast.unparse(st.value.func) in CLEANUP,
+             "unexpected statement in the handler of the main-model block: " + ast.unparse(st)[:80])
+    for name in CLEANUP:
+        if any(isinstance(st, ast.Expr) and isinstance(st.value, ast.Call) and ast.unparse(st.value.func) == name for st in h.body[:-1]) \
+                and name.startswith("_"):
+            cu = ast.unparse(find_func(tree, name))
+            need("__init__" not in cu and "call_obj_processors" not in cu and "_end_model_construction(" not in cu
+                 and ".process(" not in cu, name + " does more than cleaning up")
     # no other call of call_obj_processors / _end_model_construction in the function, except the recursion
     calls = [n for n in ast.walk(fn) if isinstance(n, ast.Call) and ast.unparse(n.func) == "call_obj_processors"]
     walker = [n for n in ast.walk(fn) if isinstance(n, ast.FunctionDef) and n.name == "call_obj_processors"]
@@ -59,7 +81,10 @@ def translate():
     for s in tr.body:
         u = ast.unparse(s)
         if isinstance(s, ast.Assign):
-            need(ast.unparse(s.targets[0]) in ("models", "resolved_count", "unresolved_count"), "unexpected assignment: " + u)
+            need(ast.unparse(s.targets[0]) in ("models", "resolved_count", "unresolved_count") + BOOKKEEPING, "unexpected assignment: " + u)
+            need(not any(isinstance(x, ast.Call) and ast.unparse(x.func) in ("call_obj_processors", "_end_model_construction")
+                         or isinstance(x, ast.Attribute) and x.attr in ("__init__", "resolve_one_step", "process")
+                         for x in ast.walk(s.value)), "assignment does phase work: " + u)
         elif isinstance(s, ast.While):
             need(ast.unparse(s.test) == "unresolved_count > 0 and resolved_count > 0" and not s.orelse, "resolution loop test changed")
             loops = [x for x in s.body if isinstance(x, ast.For)]
